@@ -33,6 +33,9 @@ META = {
                   "writes when the guard refuses, and that read paths do not write (component internals: bbolt opened read-only, fstree, "
                   "write-cache flush loop) -- this is exactly what the on-disk snapshot comparison observes on the real shard on every run. "
                   "partial: real goroutine scheduling of background workers is sampled (60 ms wait per case, GC ticker 15 ms), not proved; "
+                  "operations in flight across the mode switch are outside the model (it starts in the read-only state): they are covered by the "
+                  "in-flight schedules of the reference tie only (write-cache flush single/batch and Put held inside the blobstor write while "
+                  "SetMode runs; GC deletes in flight are not scheduled: FSTree.Delete has no point after its read-only check where it can be held); "
                   "in-memory counters (gc.currentEpoch) are not persisted state and are not compared; lock/tombstone objects are not generated.",
     "trusted_base": ["Coq 8.16.1 kernel, vm_compute", "model Shard/ROMode.v hand-written guard table, tied by differential check",
                      "harness/cmd/shard (snapshot = SHA-256 of all files under the shard directory), hooks VerifRemoveGarbage/VerifHandleEpoch, lib/vlib.py"],
@@ -59,6 +62,45 @@ def diagnose_static(ctx):
     ctx.notes.append("static obligation diagnosis (functions with an unguarded mutating call, checks of unaccepted shape, unclassified component calls): " + " ".join(out.split())[:2500])
 
 
+MODES = {1: "read-only", 3: "degraded-read-only"}
+
+
+def inflight_tie(ctx, binp):
+    """Writes that started in read-write mode (background write-cache flush of one object / of a batch, client Put) are held
+    inside the BLOB storage write while Shard.SetMode(read-only mode) is called; reference: once SetMode has returned the
+    files of the shard do not change any more (snapshot at return == snapshot after the held write was released and the
+    workers settled), SetMode succeeds and the mode is reported."""
+    if ctx.replay and not any("inflight_id" in v for v in json.load(open(ctx.replay)).get("violations", [])):
+        return
+    infl = ctx.run_json([binp, "c14inflight", "1" if ctx.tier == "quick" else "8"], timeout=900)
+    stuck = [c for c in infl if not c["entered"]]
+    if stuck or not infl:
+        # the scenario could not be set up (flusher never reached the storage within 40 s): no verdict
+        raise vlib.Broken("C14 in-flight scenario: the write never reached the gate: %s" % json.dumps(stuck[:2]))
+    bad = [c for c in infl if c["changed"] or c["set_err"] or not c["mode_set"]]
+    ctx.tie(not bad)
+    for c in sorted(bad, key=lambda c: (c["gate_n"], c["stored"]))[:6]:
+        ctx.violation({"inflight_id": c["id"], "schedule": "write in flight at the moment of the mode switch",
+                       "mode": MODES.get(c["mode"], c["mode"]), "write_cache": c["wc"],
+                       "write_in_flight": {"flush": "background write-cache flush", "put": "client Put"}[c["trigger"]] +
+                                          (" (flushBatch of %d objects)" % c["gate_n"] if c["gate_n"] > 1 else " (one object)"),
+                       "held_at": {"disk": "physical write inside FSTree, after its read-only check (slow disk)",
+                                   "storage": "wrapping blobstor, before FSTree is entered"}[c["gate"]],
+                       "objects_already_stored": c["stored"], "objects_pending": c["pending"],
+                       "impl": {"SetMode_returned_while_write_held": c["early"], "SetMode_failed": c["set_err"], "mode_reported": c["mode_set"],
+                                "files_changed_after_SetMode_returned": c["changed"], "files_at_return": c["files"], "files_after_release": c["files_end"]},
+                       "reference": "no file of the shard changes after SetMode(read-only mode) has returned",
+                       "disagrees_with": ["reference"]})
+    h = {}
+    for c in infl:
+        k = "%s/%s/%s/%s" % (MODES.get(c["mode"], c["mode"]), c["trigger"], "batch" if c["gate_n"] > 1 else "single", c["gate"])
+        h[k] = h.get(k, 0) + 1
+    ctx.cov["inflight_scenarios"] = len(infl)
+    ctx.cov["hist_inflight"] = dict(sorted(h.items()))
+    ctx.cov["inflight_switch_waited_for_write"] = sum(1 for c in infl if not c["early"])
+    ctx.cov["inflight_sample"] = infl[0]
+
+
 def run(ctx):
     static_ok = regen_static(ctx)
     binp = ctx.go_build()
@@ -80,8 +122,12 @@ def run(ctx):
                 cases += ctx.run_json([binp, "c14", str(v.get("n", n)), str(v["case_id"])])
     else:
         cases = ctx.run_json([binp, "c14", str(n)], timeout=1500)
+    inflight_tie(ctx, binp)
     # constants the model takes from the code must be the ones of docs/shard-modes.md
     ctx.tie(k["mode_degraded_ro"] == (k["mode_read_only"] | k["mode_degraded"]) and k["mode_read_write"] == 0)
+    if ctx.replay and not cases and model:
+        ctx.cov.update({"evaluations": ctx.cov.get("inflight_scenarios", 0)})
+        return  # the replay file names in-flight schedules only
     if not model or not cases:
         ctx.tie(False)
         return
@@ -102,7 +148,7 @@ def run(ctx):
         c = cases[i]
         # minimal: the first offending step
         bad = [(j, s) for j, s in enumerate(c["steps_all"]) if s["changed"] or s["cls"] == 4]
-        ctx.violation({"case_id": c["id"], "n": n, "mode": {1: "read-only", 3: "degraded-read-only"}.get(c["mode"], c["mode"]), "write_cache": c["wc"],
+        ctx.violation({"case_id": c["id"], "n": n, "mode": MODES.get(c["mode"], c["mode"]), "write_cache": c["wc"],
                        "objects": c["objects"], "in_write_cache": c["in_cache"], "garbage_marked": c["garbage"],
                        "steps": [(OPS[s["op"]], s["cls"], s["changed"]) for s in c["steps_all"]],
                        "first_offending_step": (bad[0][0], OPS[bad[0][1]["op"]]) if bad else None,
@@ -112,12 +158,15 @@ def run(ctx):
     for s in steps:
         hist[OPS[s["op"]]] = hist.get(OPS[s["op"]], 0) + 1
     ctx.cov.update({
-        "evaluations": len(steps),
+        "evaluations": len(steps) + ctx.cov.get("inflight_scenarios", 0),
         "distinct_nontrivial": len({(c["mode"], c["wc"], s["op"], c["in_cache"] > 0, c["garbage"] > 0) for c in cases for s in c["steps"] if s["op"] < 10}),
         "rule": "per case: real shard (write-cache on/off), 3-7 objects in 3 containers, part flushed part left in the write-cache, some marked as garbage, "
                 "all containers unpaid since epoch 0, then mode read-only or degraded-read-only, 8-17 random operations out of 14 (every 4th case walks "
                 "through all of them), snapshot after each, 60 ms of real background workers at the end; evaluations = steps; non-trivial = modifying "
-                "operation or job; distinct by (mode, write-cache, operation, cache non-empty, garbage present)",
+                "operation or job; distinct by (mode, write-cache, operation, cache non-empty, garbage present). In-flight schedules (hist_inflight): for "
+                "each read-only mode, a background write-cache flush of one object, of a batch of 2-5 objects, and a client Put are held inside the "
+                "BLOB storage write (in FSTree's physical write after its read-only check, and in a wrapping blobstor before it) while SetMode is "
+                "called; snapshot at SetMode's return vs. after release + 60 ms",
         "samples": [{"mode": c["mode"], "wc": c["wc"], "objects": c["objects"], "in_cache": c["in_cache"], "garbage": c["garbage"],
                      "steps": [(OPS[s["op"]], s["cls"], s["changed"]) for s in c["steps_all"]]} for c in cases[:2]],
         "traces_validated_against_impl": len(cases),
